@@ -214,13 +214,45 @@ func ruleC05(w *World) {
 		p := recv + ".curve.Params().P"
 		pLen := "bitsToBytes(" + p + ".BitLen())"
 		n := 0
+		// the coordinates by role: the values stored into the X and Y fields of the crypto/ecdsa key that is built
+		// (in the decoder or in a constructor helper it calls), in the decoder's own vocabulary
+		xs, ys := "&heap:x", "&heap:y"
+		instrs(f, func(ins ssa.Instruction) {
+			st, ok := ins.(*ssa.Store)
+			if !ok {
+				return
+			}
+			fa, ok := st.Addr.(*ssa.FieldAddr)
+			if !ok {
+				return
+			}
+			fld := fieldOf(fa)
+			if fld == nil || fld.Pkg() == nil || fld.Pkg().Path() != "crypto/ecdsa" || (fld.Name() != "X" && fld.Name() != "Y") {
+				return
+			}
+			v := st.Val
+			for k := 0; k < 2; k++ {
+				if hp, isP := v.(*ssa.Parameter); isP && hp.Parent() != f {
+					if up := enteringArg(hp); up != nil {
+						v = up
+						continue
+					}
+				}
+				break
+			}
+			if fld.Name() == "X" {
+				xs = render(v)
+			} else {
+				ys = render(v)
+			}
+		})
 		for _, r := range returns(f) {
 			if isNilConst(r.Results[0]) {
 				continue
 			}
 			n++
 			fs := w.factsAt(r)
-			for _, nd := range []string{cmpFact("len("+der+")", "==", "(2 * "+pLen+")"), "&heap:x.Cmp(" + p + ") < 0", "&heap:y.Cmp(" + p + ") < 0"} {
+			for _, nd := range []string{cmpFact("len("+der+")", "==", "(2 * "+pLen+")"), xs + ".Cmp(" + p + ") < 0", ys + ".Cmp(" + p + ") < 0"} {
 				w.check(hasFact(fs, nd), "C05.R2g", fnKey(f)+"/accept/"+nd, r.Pos(), "accepts only under "+nd, "ECDSA public key accepted without `"+nd+"`", factStrings(fs)...)
 			}
 			// on-curve for the curve actually selected: on every path one of the two curve-specific checks holds
@@ -229,7 +261,7 @@ func ruleC05(w *World) {
 					if strings.Contains(ff.Expr, "NewPublicKey(") && strings.HasSuffix(ff.Expr, "#1 == nil") && hasFact(fs, cmpFact(recv+".curve", "==", "elliptic.P256()")) {
 						return true
 					}
-					if strings.Contains(ff.Expr, ".IsOnCurve(&heap:x, &heap:y) == true") && hasFact(fs, cmpFact(recv+".curve", "==", "btcec.S256()")) {
+					if strings.Contains(ff.Expr, ".IsOnCurve("+xs+", "+ys+") == true") && hasFact(fs, cmpFact(recv+".curve", "==", "btcec.S256()")) {
 						return true
 					}
 				}
@@ -246,6 +278,12 @@ func ruleC05(w *World) {
 			if c, ok := ins.(*ssa.Call); ok {
 				if cal := c.Call.StaticCallee(); cal != nil && cal.String() == "(*math/big.Int).SetBytes" {
 					s := render(c.Call.Args[1])
+					if c.Parent() != f {
+						// inside a splitting helper: in the decoder's vocabulary
+						if ci, ok := enteredBy[c.Parent()]; ok && ci != nil {
+							s = substParams(s, c.Parent(), ci.Common())
+						}
+					}
 					if s == der+"[:"+pLen+"]" || s == der+"["+pLen+":]" {
 						halves++
 					}
@@ -418,6 +456,96 @@ func ruleC06(w *World) {
 			}
 			if o.Rule == "C06.R8" {
 				w.out.Obligations = append(w.out.Obligations, o)
+			}
+		}
+	}
+	// R11: the accepted (n, t) domain is exactly the documented one — every 2 <= n <= 254 and 1 <= t < n is accepted by the
+	// key generation and by the constructors, nothing else: at every successful return the interval of n proved by the
+	// dominating guards is exactly [min, max] (a stricter guard rejects documented group sizes), t >= minimum and t < n
+	w.floor("C06.R11", 4)
+	{
+		minS, _ := w.constInt(rootPath, "ThresholdSignMinSize")
+		maxS, _ := w.constInt(rootPath, "ThresholdSignMaxSize")
+		minT, _ := w.constInt(rootPath, "MinimumThreshold")
+		type dom struct {
+			fn   *ssa.Function
+			size func(at ssa.Instruction) (int64, int64, bool, string)
+			thr  int
+		}
+		var doms []dom
+		if kg := w.fn(rootPath, "BLSThresholdKeyGen"); kg != nil && len(kg.Params) >= 2 {
+			doms = append(doms, dom{kg, func(at ssa.Instruction) (int64, int64, bool, string) {
+				lo, hi, ok := guardInterval(w.factsAt(at), P(kg, 0))
+				return lo, hi, ok, P(kg, 0)
+			}, 1})
+		}
+		for _, name := range []string{"NewBLSThresholdSignatureInspector", "NewBLSThresholdSignatureParticipant"} {
+			if c := w.fn(rootPath, name); c != nil {
+				ki, ti := -1, -1
+				for i, p := range c.Params {
+					if _, isSl := p.Type().Underlying().(*types.Slice); isSl && strings.HasSuffix(typeShort(p.Type()), "PublicKey") {
+						ki = i
+					}
+					if b, isB := p.Type().Underlying().(*types.Basic); isB && b.Kind() == types.Int && ti < 0 {
+						ti = i
+					}
+				}
+				if ki < 0 || ti < 0 {
+					w.undecided("C06.R11", name+"/params", c.Pos(), "key-list / threshold parameters not recognised")
+					continue
+				}
+				cc, kk := c, ki
+				doms = append(doms, dom{c, func(at ssa.Instruction) (int64, int64, bool, string) {
+					lo, hi, ok := guardInterval(w.factsAt(at), "len("+P(cc, kk)+")")
+					return lo, hi, ok, "len(" + P(cc, kk) + ")"
+				}, ti})
+			}
+		}
+		for _, d := range doms {
+			n := 0
+			for _, r := range w.returnsAll(d.fn) {
+				ret := r.ins.(*ssa.Return)
+				if ret.Parent() != d.fn || len(ret.Results) == 0 || !isNilConst(ret.Results[len(ret.Results)-1]) {
+					continue
+				}
+				n++
+				at := locOf(ret)
+				lo, hi, ok, sz := d.size(at)
+				if !ok {
+					// no guard of its own on the size: a constructor that delegates the validation to another one of the list
+					deleg := false
+					for _, f := range w.factsAt(at) {
+						for _, c := range f.calls {
+							for _, d2 := range doms {
+								if c.Call.StaticCallee() == d2.fn && d2.fn != d.fn && strings.HasSuffix(f.Expr, "== nil") {
+									deleg = true
+								}
+							}
+						}
+					}
+					if deleg {
+						w.ok("C06.R11", fnKey(d.fn)+"/accepted-sizes", retPos(ret), "validation delegated to the constructor it wraps")
+						continue
+					}
+				}
+				w.check(ok && lo == minS && hi == maxS, "C06.R11", fnKey(d.fn)+"/accepted-sizes", retPos(ret), fmt.Sprintf("accepts exactly %d <= n <= %d", minS, maxS),
+					fmt.Sprintf("the guards on `%s` accept %d..%d (known=%v), the documented group sizes are %d..%d", sz, lo, hi, ok, minS, maxS), factStrings(w.factsAt(at))...)
+				thr := P(d.fn, d.thr)
+				fs := w.factsAt(at)
+				tlo, _, tok := guardInterval(fs, thr)
+				upper, stricter := false, ""
+				for _, f := range fs {
+					if f.Expr == cmpFact(thr, "<", sz) {
+						upper = true
+					} else if strings.HasPrefix(f.Expr, thr+" < ") || strings.HasPrefix(f.Expr, thr+" <= ") {
+						stricter = f.Expr
+					}
+				}
+				w.check(tok && tlo == minT && upper && stricter == "", "C06.R11", fnKey(d.fn)+"/accepted-thresholds", retPos(ret), fmt.Sprintf("accepts exactly %d <= t < n", minT),
+					fmt.Sprintf("the guards on `%s` are not exactly %d <= t < n (lower bound %d known=%v, `t < n` present=%v, other upper bound `%s`)", thr, minT, tlo, tok, upper, stricter), factStrings(fs)...)
+			}
+			if n == 0 {
+				w.undecided("C06.R11", fnKey(d.fn)+"/accepted-sizes", d.fn.Pos(), "no successful return found in the function itself")
 			}
 		}
 	}
@@ -792,4 +920,35 @@ func tailWorker(f *ssa.Function) *ssa.Function {
 		f = call.Call.StaticCallee()
 	}
 	return f
+}
+
+
+// guardInterval: the interval of x that the dominating comparisons of x with constants describe (only those: what the
+// guards accept, not what follows from the rest of the function).  ok=false when no bound on either side was tested.
+func guardInterval(fs []Fact, x string) (lo, hi int64, ok bool) {
+	lo, hi = -1<<62, 1<<62
+	haveLo, haveHi := false, false
+	for _, f := range fs {
+		p := splitCmp(f.Expr)
+		if p == nil || p[0] != x {
+			continue
+		}
+		c, isC := parseInt(p[2])
+		if !isC {
+			continue
+		}
+		switch p[1] {
+		case ">=":
+			lo, haveLo = max64(lo, c), true
+		case ">":
+			lo, haveLo = max64(lo, c+1), true
+		case "<=":
+			hi, haveHi = min64(hi, c), true
+		case "<":
+			hi, haveHi = min64(hi, c-1), true
+		case "==":
+			lo, hi, haveLo, haveHi = max64(lo, c), min64(hi, c), true, true
+		}
+	}
+	return lo, hi, haveLo || haveHi
 }
